@@ -1277,7 +1277,7 @@ example : kidsOf (run [.push [], .dup, .mutate 0 [0]]).h 0 = [0] := by decide
 
 /-- the translated list of in-place mutation sites: every receiver is a stack cell -/
 theorem mutation_sites_on_stack_cells :
-    ∀ s ∈ Gen.mutationSites, s.2.2 = "peek" ∨ s.2.2 = "pop" := by decide
+    ∀ s ∈ Gen.mutationSites, s.2 = "peek" ∨ s.2 = "pop" := by decide
 
 end C14
 end PFV
